@@ -54,6 +54,20 @@ impl UnaryParser {
                                 Err(error) => Err(error)
                             };
                         },
+                        /* The operand of a sign may itself carry a sign: 2 * - - 3 */
+                        TokenType::Operator('-') | TokenType::Operator('+') => {
+                            return match Self::parse_prefix_unary(parser) {
+                                Ok(SmartCalcAstType::None) => {
+                                    parser.set_index(index_backup);
+                                    Err(("Unary works with number", 0, 0))
+                                },
+                                Ok(ast) => Ok(SmartCalcAstType::PrefixUnary(operator, Rc::new(ast))),
+                                Err(error) => {
+                                    parser.set_index(index_backup);
+                                    Err(error)
+                                }
+                            };
+                        },
                         _ => {
                             parser.set_index(index_backup);
                             return Err(("Unary works with number", 0, 0));
